@@ -161,6 +161,8 @@ class DeterministicOde(BaseOdeModel):
         and acts accordingly.
         '''
         compiled_obj_name=method_name+"Compiled"
+        # the generator is looked up on the object that evaluates (a deep copy has its own definition)
+        generator_name=getattr(sympy_obj_generator_func, "__name__", "")
 
         def func(self, state, t):
             # Check if compiled function is being created for the first time or
@@ -168,7 +170,8 @@ class DeterministicOde(BaseOdeModel):
             # we need to update both the sympy and compiled objects.
             if not hasattr(self, compiled_obj_name) or getattr(self._hasNewTransition, method_name):
                 # Make new sympy object and compiled it
-                self.add_compiled_sympy_object(method_name, compiled_obj_name, sympy_obj_generator_func, oT, is_master_canary)
+                generator=getattr(self, generator_name, sympy_obj_generator_func)
+                self.add_compiled_sympy_object(method_name, compiled_obj_name, generator, oT, is_master_canary)
             return getattr(self, compiled_obj_name)(time=t, state=state)
         setattr(self, method_name, func.__get__(self))
 
